@@ -187,6 +187,8 @@ def run_case(case, opts):
                 ev.append({"c": "IsApplicable", "d": "d", "u": "p", "act": pc[0], "args": pc[1], "s": sh,
                            "out": pylib.observe_applicable(dom, pc[0], pc[1], prob.objects, states[sh])})
         elif kind == "groundrep":
+            if not case.get("groundrep"):       # only where the RepeatedFluentArg finding is part of the property's record
+                continue
             # grounding (only) of a call that puts one object twice into a fluent term: the grounding itself is
             # judged under the RepeatedFluentArg finding; what matters here is that it leaves everything else alone
             found = None
